@@ -123,7 +123,7 @@ impl Monitor for C18 {
         let x = v1_case(stream, idx, seed);
         // the receiver simulation costs ~len parses: run it on every 4th case of the big streams
         let simulate = idx % 4 == 0 || stream == "v1-token-edit1" || stream == "v1-len";
-        judge(&x, rec, simulate);
+        spec::sib::run_v1(&x, idx, 4, |x| judge(x, rec, simulate));
     }
     fn floor(&self, tier: Tier) -> Vec<&'static str> {
         if tier == Tier::Miri {
